@@ -59,6 +59,17 @@ func runEngineProperty(t *testing.T, prop, test string, gen func(*rapid.T) Progr
 		runOne(rp, t.Fatalf)
 		return
 	}
+	// replay tier: committed regression inputs first (shard 0 only)
+	if shardNo() == 0 {
+		for _, rf := range regressFiles(test) {
+			var c Program
+			if err := loadCaseFile(rf, &c); err != nil {
+				t.Fatalf("HARNESS ERROR: bad regression file %s: %v", rf, err)
+			}
+			rec.Label("regress-replayed", 1)
+			runOne(c, t.Fatalf)
+		}
+	}
 	rapid.Check(t, func(rt *rapid.T) {
 		p := gen(rt)
 		runOne(p, rt.Fatalf)
